@@ -363,6 +363,10 @@ def gen_project(rng, idx: int, kind: str, extra: T.List[str], nsites: int) -> T.
         sites.append(Site('e0', 'c_args', 'plain', cargs, []))
         sites.append(Site('e0', 'link_args', 'plain', largs, []))
         return sites, '\n'.join(L) + '\n'
+    if kind == 'multicall':
+        spec = multicall_spec(rng)
+        sites.append(Site('spec', 'multicall', kind, [json.dumps(spec)], []))
+        return sites, spec['meson_build']
     if kind == 'envops':
         # the environment as a command position: several values per operation, every separator, append/prepend over an
         # inherited value, unset of an inherited variable — through every delivery path (inline `env` prefix, `--internal exe`
@@ -914,7 +918,7 @@ def _evaluate_project(ctx: Ctx, root: str, b: str, dumpdir: str, kind: str, site
         elif s.position in ('project_args', 'project_link_args'):
             # checked on every compile / link statement of the project below
             continue
-        elif s.position in ('test', 'test_setup', 'argtalk'):
+        elif s.position in ('test', 'test_setup', 'argtalk', 'multicall'):
             continue
         else:
             st = None
@@ -926,6 +930,8 @@ def _evaluate_project(ctx: Ctx, root: str, b: str, dumpdir: str, kind: str, site
 
     check_pickles(ctx, b, kind, jobs)
     for s0 in sites:
+        if s0.position == 'multicall':
+            eval_multicall(ctx, root, b, dumpdir, kind, json.loads(s0.args[0]), rules, builds)
         if s0.position == 'argtalk':
             eval_argtalk(ctx, root, b, dumpdir, kind, json.loads(s0.args[0]), rules, builds)
 
@@ -1273,6 +1279,162 @@ def mtest_inprocess(ctx: Ctx, b: str, kind: str, tsites: T.List[Site], variants:
                 ctx.disagreement({'kind': 'mtest-cmd', 'input': info, 'impl': full, 'model': a})
 
 
+def multicall_spec(rng) -> dict:
+    """several calls of every global / project argument function (and dependency sources) for the same language whose
+    batches repeat strings of earlier batches: paired options (`-include H`, `-Xlinker O`), a plain flag, a whole pair
+    given twice, a `-D` given twice (CompilerArgs documents that one as de-duplicated)"""
+    L = ["project('pm', 'c', 'cpp')"]
+    comp: T.Dict[str, T.List[T.List[str]]] = {'c': [], 'cpp': []}     # language -> batches that reach every compile of it
+    link: T.Dict[str, T.List[T.List[str]]] = {'c': [], 'cpp': []}
+    n = 0
+
+    def hdr(tag):
+        nonlocal n
+        n += 1
+        return f'mv_{tag}{n}.h'
+
+    def lopt(tag):
+        nonlocal n
+        n += 1
+        return f'--mv-{tag}{n}'
+    rep_h, rep_l = hdr('rep'), lopt('rep')
+    for fn, tag in (('add_project_arguments', 'p'), ('add_global_arguments', 'g')):
+        ncalls = rng.randint(2, 4)
+        for i in range(ncalls):
+            langs = ['c', 'cpp'] if (i == 1 or rng.random() < 0.3) else ['c']
+            batch = ['-include', hdr(tag)]
+            if rng.random() < 0.6:
+                batch += ['-include', hdr(tag)]
+            if rng.random() < 0.7:
+                batch.append('-fmvdup')
+            if i in (0, ncalls - 1):
+                batch += ['-include', rep_h]          # the very same pair in two calls
+            if rng.random() < 0.5:
+                batch.append('-DMVDUP=1')
+            L.append(f"{fn}({', '.join(msn(a) for a in batch)}, language: {msl(langs)})")
+            for l in langs:
+                comp[l].append(batch)
+    for fn, tag in (('add_project_link_arguments', 'pl'), ('add_global_link_arguments', 'gl')):
+        ncalls = rng.randint(2, 4)
+        for i in range(ncalls):
+            langs = ['c', 'cpp'] if i == 1 else ['c']
+            batch = ['-Xlinker', lopt(tag)]
+            if rng.random() < 0.6:
+                batch += ['-Xlinker', lopt(tag)]
+            if i in (0, ncalls - 1):
+                batch += ['-Xlinker', rep_l]
+            L.append(f"{fn}({', '.join(msn(a) for a in batch)}, language: {msl(langs)})")
+            for l in langs:
+                link[l].append(batch)
+    # dependencies folded into the project arguments, two of them sharing the option tokens
+    dc1, dc2 = ['-include', hdr('pd')], ['-include', hdr('pd'), '-fmvdup']
+    dl1, dl2 = ['-Xlinker', lopt('pd')], ['-Xlinker', lopt('pd')]
+    L.append(f"pd1 = declare_dependency(compile_args: {msl(dc1)}, link_args: {msl(dl1)})")
+    L.append(f"pd2 = declare_dependency(compile_args: {msl(dc2)}, link_args: {msl(dl2)})")
+    L.append("add_project_dependencies(pd1, pd2, language: 'c')")
+    comp['c'] += [dc1, dc2]
+    link['c'] += [dl1, dl2]
+    # per-target sources: two dependencies and the target's own keyword arguments
+    tc1, tc2 = ['-include', hdr('td')], ['-include', hdr('td')]
+    tl1, tl2 = ['-Xlinker', lopt('td')], ['-Xlinker', lopt('td')]
+    own_c = ['-include', hdr('t'), '-fmvdup', '-include', hdr('t')]
+    own_l = ['-Xlinker', lopt('t'), '-Xlinker', lopt('t')]
+    L.append(f"td1 = declare_dependency(compile_args: {msl(tc1)}, link_args: {msl(tl1)})")
+    L.append(f"td2 = declare_dependency(compile_args: {msl(tc2)}, link_args: {msl(tl2)})")
+    L.append(f"executable('e0', 'main.c', dependencies: [td1, td2], c_args: {msl(own_c)}, link_args: {msl(own_l)})")
+    L.append("executable('e1', 'main.c')")
+    L.append("executable('e2', 'main2.cpp', 'main.c')")
+    targets = {
+        'e0': {'c': comp['c'] + [tc1, tc2, own_c], 'link': link['c'] + [tl1, tl2, own_l], 'linker': 'c'},
+        'e1': {'c': comp['c'], 'link': link['c'], 'linker': 'c'},
+        'e2': {'c': comp['c'], 'cpp': comp['cpp'], 'link': link['cpp'], 'linker': 'cpp'},
+    }
+    return {'targets': targets, 'meson_build': '\n'.join(L) + '\n'}
+
+
+def eval_multicall(ctx: Ctx, root: str, b: str, dumpdir: str, kind: str, spec: dict, rules, builds) -> None:
+    """every compile / link statement carries each marker string exactly as often as the sources that apply to it give
+    it (`-D`: at least once, de-duplication of defines is documented), every header / linker option still directly
+    preceded by its `-include` / `-Xlinker`, the strings of one batch in the order they were given"""
+    stmts = []
+    for st in builds:
+        m = re.fullmatch(r'(c|cpp)_(COMPILER|LINKER)(_RSP)?', st['rule'])
+        if not m or not st['outs']:
+            continue
+        out = st['outs'][0]
+        name = out.split('.p/')[0] if '.p/' in out else out
+        if name in spec['targets']:
+            stmts.append((st, name, m.group(1), 'compile' if m.group(2) == 'COMPILER' else 'link'))
+    if not stmts:
+        raise ValueError('no compile/link statements found for the multicall project')
+    lines = []
+    for st, *_ in stmts:
+        rb = rules.get(st['rule'], [])
+        lines.append('edge ' + '|'.join([lenc([k for k, _ in rb]), lenc([v for _, v in rb]), lenc([k for k, _ in st['vars']]),
+                                         lenc([v for _, v in st['vars']]), lenc(st['ins']), lenc(st['outs']), enc('command')]))
+    ans = ctx.driver('quote', lines)
+
+    def run_one(t):
+        i, a = t
+        if not a.startswith('ok:'):
+            return None
+        env = dict(os.environ, MV_DUMP=dumpdir, MV_ID=f'multicall-{i}', PYTHONPATH=common.REPO, LC_ALL='C.UTF-8')
+        subprocess.run(['/bin/sh', '-c', dec(a[3:])], cwd=b, env=env, stdin=subprocess.DEVNULL, stdout=subprocess.PIPE,
+                       stderr=subprocess.STDOUT, timeout=120)
+        recs = read_dump(dumpdir, f'multicall-{i}')
+        return recs[0]['argv'] if recs else None
+    with ThreadPoolExecutor(8) as ex:
+        argvs = list(ex.map(run_one, list(enumerate(ans))))
+    for (st, name, lang, stage), argv in zip(stmts, argvs):
+        ctx.count()
+        ctx.tag(f'e2e:multicall:{stage}')
+        t = spec['targets'][name]
+        if stage == 'link' and t['linker'] != lang:
+            continue
+        batches = t['link'] if stage == 'link' else t.get(lang, [])
+        case = {'position': 'compile/link args', 'project_kind': kind, 'target': name, 'stage': stage, 'language': lang,
+                'batches': batches, 'meson_build': spec['meson_build']}
+        key = f'multicall:{name}:{stage}:{lang}:{batches!r}'.replace(' ', '␣')
+        if argv is None:
+            ctx.violation(key, 'the compile/link statement could not be executed / read', case)
+            continue
+        universe = {a for bt in batches for a in bt}
+        want_count: T.Dict[str, int] = {}
+        for bt in batches:
+            for a in bt:
+                want_count[a] = want_count.get(a, 0) + 1
+        msg = None
+        for a, n in sorted(want_count.items()):
+            got = argv.count(a)
+            if a.startswith('-D'):
+                if got < 1:
+                    msg = f'{a!r} was given {n} times and does not arrive at all'
+            elif got != n:
+                msg = f'{a!r} was given {n} times by the sources of this command and arrives {got} times'
+            if msg:
+                break
+        if msg is None:
+            for i, a in enumerate(argv):
+                if a in universe and (a.endswith('.h') or a.startswith('--mv-')):
+                    opt = '-include' if a.endswith('.h') else '-Xlinker'
+                    if i == 0 or argv[i - 1] != opt:
+                        msg = f'{a!r} is no longer directly preceded by its {opt!r} (it follows {argv[i - 1] if i else None!r})'
+                        break
+        if msg is None:
+            # the strings of one batch keep their relative order (operands are unique, so positions are well defined)
+            for bt in batches:
+                ops = [a for a in bt if (a.endswith('.h') or a.startswith('--mv-')) and want_count[a] == 1]
+                pos = [argv.index(a) for a in ops]
+                if pos != sorted(pos):
+                    msg = f'the arguments of the batch {bt!r} arrive out of order'
+                    break
+        if msg:
+            ctx.violation(key, f'{stage} command of {name!r} ({lang}): {msg}; argv (marker strings only): '
+                          f'{[a for a in argv if a in universe]!r}', dict(case, got=[a for a in argv if a in universe]))
+        else:
+            ctx.seen_nontrivial(('e2e', key))
+
+
 def argtalk_kwargs() -> T.Dict[str, T.List[str]]:
     """per target function: the argument-carrying keyword names, enumerated from the live interpreter tables
     (`_LANGUAGE_KWS`, `_SHARED_STATIC_ARGS`, the `*_KWS` lists) for the languages this sandbox can compile"""
@@ -1522,7 +1684,7 @@ def run_e2e(ctx: Ctx, scratch: str, extra_strings: T.Optional[T.List[str]] = Non
         sites, text = gen_project(rng, idx, 'rsp', extra, 4)
         plan.append(('rsp', sites, text))
         idx += 1
-    for kind in ('envops', 'rspmix', 'argtalk-both', 'argtalk-static', 'argtalk-shared', 'templates', 'crosstalk', 'tests', 'optlike',
+    for kind in ('multicall', 'envops', 'rspmix', 'argtalk-both', 'argtalk-static', 'argtalk-shared', 'templates', 'crosstalk', 'tests', 'optlike',
                  'nl-env', 'nl-compile'):
         sites, text = gen_project(rng, idx, kind, extra, 1)
         plan.append((kind, sites, text))
